@@ -29,7 +29,7 @@ REQUIRED_THEOREMS = [P + n for n in (
     'runFrom_log', 'runOn_log', 'per_element_total', 'per_element_own', 'per_element', 'per_element_own_firstK',
     'take_log', 'take_zero_log', 'take_short_log', 'simple_select', 'simple_filter', 'simple_takeWhile', 'simple_skipWhile',
     'applies_selectMany', 'applies_search', 'search_consumed', 'applies_each', 'applies_accumulate', 'applies_zip',
-    'concat_log', 'joinRows_events', 'join_pass_events', 'join_empty_outer')] + [
+    'concat_log', 'joinRows_events', 'join_pass_events', 'join_empty_outer', 'thunk_per_call', 'thunk_slots')] + [
     'Yaql.Props.C11Gen.lazy_params', 'Yaql.Props.C11Gen.lazy_functions']
 TRUSTED = ['the expression generator and its bookkeeping of operand values (taken from separate real evaluations of the '
            'sub-expressions)', 'harness/gens/registry.py']
@@ -178,7 +178,7 @@ class Gen:
             ('list-literal', lambda d: e('[{}, {}, {}]', 'AAA', d)), ('list()', lambda d: e('list({}, {})', 'AA', d)),
             ('list+', lambda d: e('({} + {})', 'LL', d)),
             ('examine', self.examine), ('selectAllCases', self.select_all),
-            ('map-literal-keys', self.map_literal),
+            ('map-literal-keys', self.map_literal), ('def-calls', self.def_calls),
         ]
 
     def p_N(self):
@@ -244,6 +244,24 @@ class Gen:
         return 'coalesce(%s)' % ', '.join(a[0] for a in args), dict(
             k='coalesce', nulls=[self.isnull(a[0]) for a in args], **{'as': [a[1] for a in args]})
 
+    def def_calls(self, d):
+        """def(f, body) -> [f(), e, f(), ..]: the lazily passed body is evaluated at every call of f"""
+        self.ndef = getattr(self, 'ndef', 0) + 1
+        f = 'fn%d' % self.ndef
+        body, xb = self.expr('A', d)
+        slots, others, parts = [], [], []
+        for _ in range(self.rng.choice([1, 2, 2, 3, 4])):
+            if self.rng.random() < 0.65:
+                slots.append(True)
+                parts.append('%s()' % f)
+            else:
+                t, x = self.expr('A', d)
+                slots.append(False)
+                others.append(x)
+                parts.append(t)
+        text = '(def(%s, %s) -> [%s])' % (f, body, ', '.join(parts))
+        return text, dict(k='defCalls', b=xb, sl=slots, os=others)
+
     def map_literal(self, d):
         ks = [self.tick("'k%d'" % i, dict(k='leaf')) for i in range(2)]
         vs = [self.expr('A', d) for _ in range(2)]
@@ -296,6 +314,11 @@ def py_trace(x):
             out += py_trace(a)
             if not nul:
                 break
+        return out
+    if k == 'defCalls':
+        out, rest = [], list(x['os'])
+        for is_call in x['sl']:
+            out += py_trace(x['b']) if is_call else py_trace(rest.pop(0))
         return out
     raise ValueError(k)
 
